@@ -40,6 +40,7 @@ type c09cfg struct {
 	pCancel int
 	pNoReply int
 	pDelay  int
+	Lq      int // queue limit while dialing (>= L)
 	w       *W1
 }
 
@@ -65,6 +66,10 @@ func c09Setup(rc *RunCtx) simrt.Config {
 			rc.Cfg["p_noreply"] = 0
 		}
 	}()
+	c.Lq = c.L
+	if c.kind.pipelined() && r.Choose(3) == 0 {
+		c.Lq = []int{2 * c.L, c.L + 3}[r.Choose(2)]
+	}
 	c.callers = 1 + r.Choose(6)
 	for i := 0; i < c.callers; i++ {
 		c.perCall = append(c.perCall, 1+r.Choose(4))
@@ -76,6 +81,7 @@ func c09Setup(rc *RunCtx) simrt.Config {
 	rc.Cfg["mode"] = []string{"history", "dialing", "direct"}[c.mode]
 	rc.Cfg["kind"] = c.kind.String()
 	rc.Cfg["L"] = c.L
+	rc.Cfg["Lq"] = c.Lq
 	rc.Cfg["callers"] = c.callers
 	rc.Cfg["p_cancel"] = c.pCancel
 	rc.Cfg["p_noreply"] = c.pNoReply
@@ -135,7 +141,7 @@ func c09History(rc *RunCtx, c *c09cfg, w *W1) {
 	serve := w.Serve(ServerOpts{Plan: plan})
 	rc.Net.Handle("udp", srvAddr, serve)
 	rc.Net.Handle("tcp", srvAddr, serve)
-	u := w.NewTransport(c.kind, TransportOpts{MaxCQ: c.L, MaxLazyQ: c.L, IdleTimeout: time.Hour})
+	u := w.NewTransport(c.kind, TransportOpts{MaxCQ: c.L, MaxLazyQ: c.Lq, IdleTimeout: time.Hour})
 	done := make(chan struct{}, 64)
 	for ci := 0; ci < c.callers; ci++ {
 		ci := ci
@@ -153,7 +159,7 @@ func c09History(rc *RunCtx, c *c09cfg, w *W1) {
 					}).Daemon = true
 				}
 				w.Exchange(u, call)
-				if call.Err != nil && ctx.Err() == nil {
+				if call.Err != nil && ctx.Err() == nil && c.Lq == c.L {
 					// the server is healthy, dials succeed, the context is live:
 					// nothing licenses a failure
 					rc.Fail("query_refused_on_healthy_transport", "call %d failed with %q although its context is live, the server answers and connections can be opened (limit %d)", call.Idx, call.Err, c.L)
@@ -266,13 +272,20 @@ func c09Dialing(rc *RunCtx, c *c09cfg, w *W1) {
 	}
 	rc.Net.Handle("udp", srvAddr, serve).DialFault = fault
 	rc.Net.Handle("tcp", srvAddr, serve).DialFault = fault
-	u := w.NewTransport(c.kind, TransportOpts{MaxCQ: c.L, MaxLazyQ: c.L, IdleTimeout: time.Hour})
-	n := c.L
-	done := make(chan struct{}, n+2)
+	u := w.NewTransport(c.kind, TransportOpts{MaxCQ: c.L, MaxLazyQ: c.Lq, IdleTimeout: time.Hour})
+	n := c.Lq
+	done := make(chan struct{}, n+8)
 	var calls []*Call
+	// some queued callers give up exactly when the dial completes (see below)
+	var cancels []context.CancelFunc
 	for i := 0; i < n; i++ {
 		call := w.NewCall(i, 0, uint16(i), 1)
 		calls = append(calls, call)
+		if simrt.Choose(4) == 0 {
+			ctx, cancel := context.WithCancel(context.Background())
+			call.Ctx = ctx
+			cancels = append(cancels, cancel)
+		}
 		simrt.GoNamed(fmt.Sprintf("early%d", i), func() {
 			w.Exchange(u, call)
 			simrt.Send(0, done, struct{}{})
@@ -280,7 +293,7 @@ func c09Dialing(rc *RunCtx, c *c09cfg, w *W1) {
 	}
 	simrt.Sleep(0, time.Millisecond)
 	if dialStarted != 1 {
-		rc.Fail("dialing_queue_limit", "%d callers (queue limit %d) on a transport whose only connection is still dialing started %d dials (expected 1)", n, c.L, dialStarted)
+		rc.Fail("dialing_queue_limit", "%d callers (queue limit %d) on a transport whose only connection is still dialing started %d dials (expected 1)", n, c.Lq, dialStarted)
 	}
 	extra := false
 	if rc.Viol == nil && simrt.Choose(2) == 0 {
@@ -294,12 +307,20 @@ func c09Dialing(rc *RunCtx, c *c09cfg, w *W1) {
 		})
 		simrt.Sleep(0, time.Millisecond)
 		if dialStarted != 2 {
-			rc.Fail("dialing_queue_limit", "caller %d on a dialing connection with queue limit %d: %d dials started (expected 2)", n+1, c.L, dialStarted)
+			rc.Fail("dialing_queue_limit", "caller %d on a dialing connection with queue limit %d: %d dials started (expected 2)", n+1, c.Lq, dialStarted)
 		}
 		n++
 	}
 	_ = extra
 	simrt.Probe("c09.dial_released_with_queued_callers")
+	if len(cancels) > 0 {
+		simrt.GoNamed("cancel-at-dial-completion", func() {
+			for _, cf := range cancels {
+				simrt.Fault("ctx_cancel_at_dial_completion")
+				cf()
+			}
+		})
+	}
 	close(dialGate)
 	// Late callers arrive at the very instant the dial completes: they compete
 	// with the queued callers for the fresh connection's slots. The queued ones
@@ -321,12 +342,21 @@ func c09Dialing(rc *RunCtx, c *c09cfg, w *W1) {
 		simrt.Recv(0, done)
 	}
 	for _, x := range calls {
+		if x.Ctx != nil && x.Ctx.Err() != nil {
+			continue // gave up at dial completion
+		}
+		if c.Lq > c.L {
+			continue // unequal limits: part of the queued queries may be refused; the per-connection limit still holds (checked by the server)
+		}
 		if x.Err != nil && rc.Viol == nil {
 			rc.Fail("queued_query_refused_after_dial", "call %d, queued while the connection was dialing (queue limit %d = connection limit %d), failed after the dial succeeded: %v", x.Idx, c.L, c.L, x.Err)
 		}
 		w.CheckProvenance(x)
 	}
 	for _, x := range late {
+		if c.Lq > c.L {
+			break // with unequal limits a late caller may itself be queued on a dialing connection and refused
+		}
 		if x.Err != nil && rc.Viol == nil {
 			rc.Fail("late_query_failed", "call %d, issued when the dial completed, failed: %v", x.Idx, x.Err)
 		}
@@ -437,7 +467,18 @@ func countReservations(dc *transport.TraditionalDnsConn) int {
 }
 
 func c09Post(rc *RunCtx, res simrt.Result) {
+	c := rc.priv.(*c09cfg)
 	if res.End != simrt.EndClean && rc.Viol == nil {
+		// The server answers everything that reaches it and dials succeed: a call
+		// that never returns means a healthy connection stopped admitting queries.
+		if c.w != nil && (res.End == simrt.EndStuck || res.End == simrt.EndDeadlock) {
+			for _, x := range c.w.Calls {
+				if x.Started && !x.Done {
+					rc.Fail("query_never_admitted", "call %d never returned although the server is healthy and connections can be opened (run ended %s: %s)", x.Idx, res.End, leakSummary(res))
+					return
+				}
+			}
+		}
 		rc.Inconcl = "run did not end cleanly: " + res.End.String()
 	}
 }
